@@ -589,3 +589,18 @@ package ship
 //@ guarded ShipConnection.spineBuffer by ShipConnection.bufferMux
 // the timer stop channel is never closed (checked over the whole module), so the non-blocking stop send cannot panic
 //@ neverclosed ShipConnection.handshakeTimerStopChan
+
+// ---- sending SPINE data (C06, send side): one data frame per call, in a buffer nobody else holds ----
+//@ func (c *ShipConnection).transformSpineDataIntoShipJson(data) [C06,C08]
+//@ func (c *ShipConnection).sendSpineData(data) [C06,C08]
+//@   ensures c.smeState == old(c.smeState)
+//@   ensures c.shutdownOnce.$done != old(c.shutdownOnce.$done) ==> c.shutdownOnce.$done && !c.handshakeTimerRunning
+//@   ensures c.shutdownOnce.$done == old(c.shutdownOnce.$done) ==> c.handshakeTimerRunning == old(c.handshakeTimerRunning)
+//@   ensures c.$closeScheduled == old(c.$closeScheduled)
+//@   ensures [C11] F1-step: @F1STEP(c)
+//@   atcall WriteMessageToWebsocketConnection [C06] S1-frame: len($0) >= 1 && $0[0] == model.MsgTypeData
+//@   atcall WriteMessageToWebsocketConnection [C06] S2-fresh: fresh($0)
+//@   modifies @cl(c)
+//@ func (c *ShipConnection).WriteShipMessageWithPayload(message) entry [C06,C08]
+//@   requires c.smeState == model.SmeStateComplete
+//@   modifies @cl(c)
